@@ -356,6 +356,9 @@ impl ActionBind {
         trace!("updating action `{}`", self.action_name);
 
         let mut tracker = TriggerTracker::new(ActionValue::zero(self.dim));
+        // Most significant state among the inputs merged so far.
+        // Tracked separately because the merged value may cancel out to zero.
+        let mut tracker_state = ActionState::None;
         for binding in &mut self.bindings {
             let value = reader.value(binding.input);
             if binding.ignored {
@@ -379,7 +382,7 @@ impl ActionBind {
                 continue;
             }
 
-            match current_state.cmp(&tracker.state()) {
+            match current_state.cmp(&tracker_state) {
                 Ordering::Less => (),
                 Ordering::Equal => {
                     tracker.combine(current_tracker, self.accumulation);
@@ -388,6 +391,7 @@ impl ActionBind {
                     }
                 }
                 Ordering::Greater => {
+                    tracker_state = current_state;
                     tracker.overwrite(current_tracker);
                     if self.consume_input {
                         self.consume_buffer.clear();
